@@ -306,7 +306,7 @@ func printStruct(sb *stringBuilder, s *parser.StructLike, structType string) {
 func printConstTypedValue(sb *stringBuilder, ctv *parser.ConstTypedValue) {
 	if ctv.Double != nil {
 		s := strconv.FormatFloat(*ctv.Double, 'f', -1, 64)
-		if !strings.Contains(s, ".") && (*ctv.Double >= 1<<63 || *ctv.Double < -(1<<63)) {
+		if !strings.Contains(s, ".") && (*ctv.Double >= 1<<63 || *ctv.Double <= -(1<<63)) {
 			s += ".0" // would otherwise be re-read as an integer literal that overflows int64
 		}
 		sb.writeString(s)
